@@ -25,6 +25,7 @@ def make_pipe_classes(nfc):
             self.keep_frames = True
             self.fail_io = {"I": 0, "T": 0}     # number of upcoming exchange() calls that raise IOError
             self.fail_deactivate = {"I": False, "T": False}
+            self.deactivated = {"I": 0, "T": 0}
             self.rwt = 0.0773
 
         def send(self, direction, data):
@@ -55,13 +56,14 @@ def make_pipe_classes(nfc):
                     return q.pop(0)
                 return None           # closed
 
-    class PipeInitiator(nfc.dep.Initiator):
-        def __init__(self, pipe):
-            nfc.dep.Initiator.__init__(self, clf=None)
-            self.pipe = pipe
-            self.miu = 251
+    def PipeInitiator(pipe):
+        """a real nfc.dep.Initiator object (type(mac) is nfc.dep.Initiator, as llc.terminate() requires)
+        whose activate/exchange/deactivate are replaced on the instance"""
+        self = nfc.dep.Initiator(clf=None)
+        self.pipe = pipe
+        self.miu = 251
 
-        def activate(self, target=None, **options):
+        def activate(target=None, **options):
             p = self.pipe
             with p.cond:
                 p.gbi = bytes(options.get("gbi", b""))
@@ -73,7 +75,7 @@ def make_pipe_classes(nfc):
             self.rwt = p.rwt
             return bytearray(p.gbt)
 
-        def exchange(self, send_data, timeout):
+        def exchange(send_data, timeout):
             p = self.pipe
             if p.fail_io["I"]:
                 p.fail_io["I"] -= 1
@@ -87,21 +89,24 @@ def make_pipe_classes(nfc):
                 raise nfc.clf.TimeoutError("sim: no response from target")
             return bytearray(r)
 
-        def deactivate(self, release=True):
-            if self.pipe.fail_deactivate["I"]:
+        def deactivate(release=True):
+            p = self.pipe
+            p.deactivated["I"] += 1
+            if p.fail_deactivate["I"]:
                 raise IOError(5, "sim: host link error")
-            with self.pipe.cond:
-                self.pipe.closed = True
-                self.pipe.cond.notify_all()
+            with p.cond:
+                p.closed = True
+                p.cond.notify_all()
             return True
+        self.activate, self.exchange, self.deactivate = activate, exchange, deactivate
+        return self
 
-    class PipeTarget(nfc.dep.Target):
-        def __init__(self, pipe):
-            nfc.dep.Target.__init__(self, clf=None)
-            self.pipe = pipe
-            self.miu = 251
+    def PipeTarget(pipe):
+        self = nfc.dep.Target(clf=None)
+        self.pipe = pipe
+        self.miu = 251
 
-        def activate(self, timeout=None, **options):
+        def activate(timeout=None, **options):
             p = self.pipe
             with p.cond:
                 p.gbt = bytes(options.get("gbt", b""))
@@ -113,7 +118,7 @@ def make_pipe_classes(nfc):
             self.rwt = p.rwt
             return bytearray(p.gbi)
 
-        def exchange(self, send_data, timeout):
+        def exchange(send_data, timeout):
             p = self.pipe
             if p.fail_io["T"]:
                 p.fail_io["T"] -= 1
@@ -126,15 +131,18 @@ def make_pipe_classes(nfc):
                 raise nfc.clf.TimeoutError("sim: no command from initiator")
             return None if r is None else bytearray(r)
 
-        def deactivate(self, data=bytearray()):
-            if self.pipe.fail_deactivate["T"]:
-                raise IOError(5, "sim: host link error")
+        def deactivate(data=bytearray()):
             p = self.pipe
+            p.deactivated["T"] += 1
+            if p.fail_deactivate["T"]:
+                raise IOError(5, "sim: host link error")
             if data:
                 p.send("T>I", data)
             with p.cond:
                 p.closed = True
                 p.cond.notify_all()
+        self.activate, self.exchange, self.deactivate = activate, exchange, deactivate
+        return self
 
     return Pipe, PipeInitiator, PipeTarget
 
